@@ -157,7 +157,15 @@ def second_order_failure(stats, m, var, sm, s, penv, w):
         stats.count("second-order-skip:ill-conditioned-fold")
         cd2 = None
     if cd2 is not None:
-        tol = 1e-9 * (abs(o2.D) + o2.a + abs(cd2) + 1)
+        # how far the returned expression's derivative may sit from the truth because its float constants were
+        # folded in double arithmetic: reference AD with 2 ulp of uncertainty on every float constant
+        ctx_c = RE.RefEval(penv, lo=DV.LO, hi=DV.HI, const_ulps=2.0)
+        o2c = DV.oracle(sm, penv, w, ctx=ctx_c, r=ctx_c.eval(sm))
+        if o2c.st != "ok":
+            stats.count("second-order-skip:undecided-with-constant-uncertainty")
+            cd2 = None
+    if cd2 is not None:
+        tol = 1e-9 * (abs(o2.D) + o2.a + abs(cd2) + 1) + TOL * o2c.ed
         if abs(cd2 - o2.D) > tol:
             return (f"d/d{w} of the returned expression {M.text(sm)[:200]} is {o2.D}, but the true second-order partial "
                     f"(central difference of the true first-order partial) is {cd2}")
